@@ -873,6 +873,18 @@ pub fn validate_json_for_entity(
                 };
             }
         }
+    } else {
+        //no JSON at all: every mandatory field is missing
+        for f in &entity.fields {
+            let field = f.1;
+            if !field.is_system
+                && !field.nullable
+                && field.default_value.is_none()
+                && !matches!(field.field_type, FieldType::Array(_) | FieldType::Entity(_))
+            {
+                return Err(crate::database::Error::MissingJsonField(f.0.to_string()));
+            }
+        }
     }
     Ok(())
 }
